@@ -63,6 +63,14 @@ def rand_spec(profile, seed):
         n = 1 if k < 0.8 else rnd.randint(2, 3)
         return " / " + ",".join(new_act() for _ in range(n))
 
+    def internal_row(pool):
+        """a row of a state-local or sm-internal table; one in five is guard-only (no action)"""
+        ev = rnd.choice(trig[:nev])
+        g = guard(pool)
+        if g and rnd.random() < 0.2:
+            return "%s%s" % (ev, g)
+        return "%s%s / %s" % (ev, g, new_act())
+
     machines = []
     # machine tree: root, optionally one sub-machine per level (depth <= 3), sometimes two siblings at level 2
     shape = rnd.choice([[0], [0, 1], [0, 1], [0, 1, 2], [0, 1, 1]])     # nesting level of each machine
@@ -154,10 +162,10 @@ def rand_spec(profile, seed):
             if others:
                 if M["_explicit"]:
                     regs = sorted(M["_explicit"])
-                    P["rows"].append("%s + %s%s -> %s.%s" % (rnd.choice(others), rnd.choice(trig[:nev]), actions(), substate, M["_explicit"][regs[0]]))
+                    P["rows"].append("%s + %s%s%s -> %s.%s" % (rnd.choice(others), rnd.choice(trig[:nev]), guard(ppool), actions(), substate, M["_explicit"][regs[0]]))
                     if len(regs) > 1:
                         tg = "|".join("%s.%s" % (substate, M["_explicit"][r]) for r in regs)
-                        P["rows"].append("%s + %s%s -> %s" % (rnd.choice(others), rnd.choice(trig[:nev]), actions(), tg))
+                        P["rows"].append("%s + %s%s%s -> %s" % (rnd.choice(others), rnd.choice(trig[:nev]), guard(ppool), actions(), tg))
                 for ri, (ep, epev) in M["_entry_pts"].items():
                     P["rows"].append("%s + %s%s%s -> %s.%s" % (rnd.choice(others), epev, guard(ppool), actions(), substate, ep))
                 for ri, (xp, xev) in M["_exit_pts"].items():
@@ -167,11 +175,11 @@ def rand_spec(profile, seed):
                 P["rows"].append("%s + %s%s%s -> %s" % (substate, rnd.choice(trig[:nev]), guard(ppool), actions(), rnd.choice(others)))
         # sm-internal and state-local internal tables
         if rnd.random() < 0.5:
-            M["internal"] = ["%s%s / %s" % (rnd.choice(trig[:nev]), guard(pool), new_act()) for _ in range(rnd.randint(1, 2))]
+            M["internal"] = [internal_row(pool) for _ in range(rnd.randint(1, 2))]
         for reg in M["regions"]:
             for s in reg:
                 if s not in M["kinds"] and rnd.random() < 0.2:
-                    M["state"].setdefault(s, {})["internal"] = ["%s%s / %s" % (rnd.choice(trig[:nev]), guard(pool), new_act())]
+                    M["state"].setdefault(s, {})["internal"] = [internal_row(pool)]
         if profile == "compl":
             # completion rows only "forward" in the region's state order: chains terminate
             # the guard leaves of a completion row belong to its source state (the value is latched on entry of that state)
